@@ -17,6 +17,8 @@ from .. import readfiles as rf
 PS = rf.PS
 VOFF = 0xffff880000000000
 AS_KPHYS, AS_MACHPHYS, AS_KV = 0, 1, 2
+# values outside the enumeration: 3, 4, 64, 65, INT_MAX, KDUMP_NOADDR (-1)
+BAD_AS = [3, 4, 0x40, 0x41, 0x7fffffff, 0xffffffff]
 
 
 # ---------------------------------------------------------------------------------------------
@@ -46,6 +48,15 @@ def gen_layout(rng, kind, top=False):
         else:
             nuls = sorted(rng.sample(range(PS), rng.randint(1, 4)))
         pages[q] = [rng.randrange(1 << 30), nuls]
+    # strings that run exactly to a page end: for some present pairs (q, q+1) the NUL is the FIRST byte of
+    # page q+1 and page q has no NUL in its last 300 bytes; the mirror case (NUL as the LAST byte of a
+    # page) comes from the PS-1 entries above
+    for q in sorted(pages):
+        if q + 1 in pages and rng.random() < 0.6:
+            pages[q + 1][1] = sorted(set(pages[q + 1][1]) | {0})
+            pages[q][1] = [z for z in pages[q][1] if z < PS - 300]
+        elif PS - 1 in pages[q][1]:
+            pages[q][1] = [z for z in pages[q][1] if z < PS - 300 or z == PS - 1]
     lay = {"kind": kind, "npfn": npfn, "pages": {str(k): v for k, v in pages.items()},
            "xlat": rng.random() < 0.5}
     if kind == "elf" and top:
@@ -125,6 +136,10 @@ def write_sidecar(path, probe_out):
 def gen_read_items(rng, lay, n):
     items = []
     for _ in range(n):
+        if rng.random() < 0.05:
+            items.append("%x:%x:%x" % (rng.choice(BAD_AS), rng.choice([0, PS, 5 * PS + 1]),
+                                       rng.choice([0, 1, 0x10, PS + 1])))
+            continue
         a, base = rng.choice(spaces(lay) + spaces(lay)[:1] * 2)
         top = (lay["npfn"] + 2) * PS
         if "kvbase" in lay and rng.random() < 0.6:
@@ -162,9 +177,25 @@ def gen_read_items(rng, lay, n):
 def gen_string_items(rng, lay, n):
     items = []
     pages = {int(k): v for k, v in lay["pages"].items()}
+    ends = [q for q in pages if q + 1 in pages and 0 in pages[q + 1][1]]       # NUL first in page q+1
+    lasts = [q for q in pages if PS - 1 in pages[q][1]]                        # NUL last in page q
     for _ in range(n):
+        if rng.random() < 0.05:
+            items.append("%x:%x:%s" % (rng.choice(BAD_AS), rng.choice([0, PS, 5 * PS + 1]), rng.choice(["-", "0"])))
+            continue
         a, base = rng.choice(spaces(lay)[:1] * 3 + spaces(lay))
         top = (lay["npfn"] + 2) * PS
+        if (ends or lasts) and rng.random() < 0.45:
+            # a string of length L that ends at the page's last byte (NUL = first byte of the next page),
+            # or whose NUL is the page's last byte; lengths that exactly fill a malloc chunk included
+            L = rng.choice([rng.randint(0, 200), rng.randint(0, 200), 24, 40, 56, 72, 88, 104, 120, 136])
+            if ends and (not lasts or rng.random() < 0.6):
+                start = (rng.choice(ends) + 1) * PS - L
+            else:
+                start = rng.choice(lasts) * PS + PS - 1 - L
+            k = rng.choice(["-", "-", "-", "0", "1"])
+            items.append("%x:%x:%s" % (a, base + start, k))
+            continue
         if "kvbase" in lay and rng.random() < 0.5:
             a, base = AS_KV, lay["kvbase"]
         p = rng.randrange(lay["npfn"] + 1)
@@ -265,6 +296,9 @@ def compare(run, exe, cases, layouts, model, impl, crashes):
         what = "%s %s file, %s" % (layouts[path]["kind"], "kdump_read" if mode[0] == "R" else "kdump_read_string",
                                    " ".join(small))
         if r != 0:
+            asan = [l for l in e.split("\n") if "ERROR: AddressSanitizer" in l or "runtime error" in l]
+            if asan:
+                what = asan[0].split("ERROR: ")[-1][:110] + " on " + what
             run.violation("impl", "read.c: sanitizer/crash (exit %s) on %s" % (r, what), replay,
                           found_input=True, signature="read crash " + e[-300:])
         elif sv:
@@ -374,7 +408,10 @@ def check(run):
                        "and diskdump (raw/zlib/snappy/zstd pages; MACHPHYSADDR, KPHYSADDR, untranslatable KVADDR) files "
                        "with random runs of present pages and holes; starts at page boundaries +-1,2, lengths ending 1 "
                        "before/at/after a boundary, zero, several pages then a hole; strings aimed at NULs placed at "
-                       "offsets 0, page_size-1, page_size-2 and random, with the 0th/1st/2nd realloc failing; "
+                       "offsets 0, page_size-1, page_size-2 and random, with the 0th/1st/2nd realloc failing; strings of every "
+                       "length 0..200 (and chunk-filling 24, 40, ...) that end at a page's last byte with the NUL first in "
+                       "the next page, or with the NUL as the page's last byte; address spaces outside the enumeration "
+                       "(3, 4, 64, 65, INT_MAX, KDUMP_NOADDR); "
                        "distinct = distinct case lines; non-trivial = contains a failing or partial answer")
     run.cov["engines"]["read"] = {"files": len(paths), "case_lines": len(cases)}
     if not cases:
